@@ -57,6 +57,7 @@ fn main() {
                 jobs: arg_val(&args, "--jobs").and_then(|s| s.parse().ok()).unwrap_or(16),
                 cases_override: arg_val(&args, "--cases").and_then(|s| s.parse().ok()),
                 include_known: args.iter().any(|a| a == "--include-known"),
+                no_valgrind: args.iter().any(|a| a == "--no-valgrind") || std::env::var_os("MV_NO_VALGRIND").is_some(),
             };
             std::process::exit(driver::run_property(cfg));
         }
